@@ -847,6 +847,29 @@ func TestPropPartition(t *testing.T) {
 		g.mapInlineOnly = differential
 		ts := g.genType(0, true)
 		doc := g.docFor(ts, differential)
+		wide := rapid.IntRange(0, 7).Draw(t, "wide") == 0
+		if wide {
+			// a wide document: 65-140 extra unknown keys, shuffled among the others, so keys that
+			// fields consume sit at every position incl. beyond 64
+			n := rapid.IntRange(65, 140).Draw(t, "nfill")
+			type kvp struct {
+				k string
+				v *gt.Node
+			}
+			var ps []kvp
+			for i, k := range doc.Keys {
+				ps = append(ps, kvp{k, doc.Vals[i]})
+			}
+			for i := 0; i < n; i++ {
+				ps = append(ps, kvp{fmt.Sprintf("w%d", i), gt.IntN(int64(i))})
+			}
+			ps = rapid.Permutation(ps).Draw(t, "wideorder")
+			wd := gt.MapN(true)
+			for _, p := range ps {
+				wd.Put(p.k, p.v)
+			}
+			doc = wd
+		}
 		fresh := differential || rapid.Bool().Draw(t, "fresh")
 		viaNode := rapid.Bool().Draw(t, "vianode")
 		rt := ts.build()
@@ -916,6 +939,9 @@ func TestPropPartition(t *testing.T) {
 		}
 		if doc.Has("") {
 			cls = append(cls, "empty-key")
+		}
+		if wide {
+			cls = append(cls, "wide-document")
 		}
 		rec.Case(ev.HashStr(desc()), nt, cls...)
 		rec.MaybeSample(nt, func() any { return json.RawMessage(desc()) })
